@@ -18,7 +18,7 @@ pub fn def() -> PropDef {
         job_level,
         run_job,
         replay,
-        rule: "configs = every action-menu entry (≈95 list/atom actions, scaled time constants) in a layer cell and in each of 15 nesting contexts (alias, virtual key, chord v1/v2 action, tap-dance/eager item, fork l/r, switch case, multi member, tap-hold tap/hold/timeout slot, one-shot body, macro item) + every numeric token of every entry replaced by 0/1/65535 + empty-list variants; parser-rejected texts are counted and dropped. For each accepted config: ALL histories of exactly D steps over the unconstrained alphabet {press,release,repeat of a,b (no physical-consistency filter), tap, tick 1, tick 7, vkey toggle/tap via TCP path} followed by an 80-tick settle; plus flood scenarios (17..129 presses / vkey taps without a tick). Oracle: no panic (dev-profile semantics: overflow + debug_assert panic), no step > 2 s. non-trivial = distinct (config, state digest) nodes; outcome classes = accepted/rejected/per-context.",
+        rule: "configs = every action-menu entry (≈95 list/atom actions, scaled time constants) in a layer cell and in each of 15 nesting contexts (alias, virtual key, chord v1/v2 action, tap-dance/eager item, fork l/r, switch case, multi member, tap-hold tap/hold/timeout slot, one-shot body, macro item) + every numeric token of every entry replaced by 0/1/65535 + empty-list variants; parser-rejected texts are counted and dropped. For each accepted config: ALL histories of exactly D steps over the unconstrained alphabet {press,release,repeat of a,b (no physical-consistency filter), tap, tick 1, tick 7, vkey toggle/tap via TCP path} followed by an 80-tick settle; plus flood scenarios (17..129 presses / vkey taps without a tick); plus a capacity family with one scenario family per fixed-capacity structure (9..16 layer-while-held keys held at once in three layer arrangements, one-shot chords of 8 key codes feeding the 20-slot repeat buffer, 1..5 keys of 18 key codes each against the 64-slot state vector, switch with 6..12 fall-through cases against the 8-slot action queue, v1 chord decomposition of 3..8 keys, tap-dance with a 20-item list and up to 25 taps, 7..10 tap-hold keys pending at once). Oracle: no panic (dev-profile semantics: overflow + debug_assert panic), no step > 2 s. non-trivial = distinct (config, state digest) nodes; outcome classes = accepted/rejected/per-context.",
         assumptions: &[
             "dev-profile arithmetic (overflow-checks, debug-assertions) as in the pinned test-suite",
             "clipboard and cmd actions excluded (need OS services / feature off)",
@@ -34,7 +34,7 @@ struct Job {
     tag: String,
     cfg: String,
     depth: usize,
-    kind: u8, // 0 = history exploration, 1 = flood
+    kind: u8, // 0 = history exploration, 1 = flood, 2 = capacity scenarios
     level: u32,
 }
 
@@ -200,6 +200,9 @@ fn jobs(tier: Tier) -> &'static Vec<Job> {
                 }
             }
             if lvl == 0 {
+                for (tag, cfg, _) in capacity_scenarios() {
+                    v.push(Job { tag: format!("capacity/{tag}"), cfg, depth: 0, kind: 2, level: 0 });
+                }
                 // flood family
                 for m in ["x", "(tap-hold 5 5 x lsft)", "(one-shot 8 lsft)", "(multi x y z)", "(chord grp ka)", "(macro x y z)", "(on-press tap-vkey v1)", "(tap-dance 5 (x y))", "(layer-while-held nav)", "(caps-word 5)"] {
                     for cv2 in [false, true] {
@@ -252,6 +255,181 @@ fn check_one(cfg: &str, hist: &[Ev], first_new: usize, st: &mut Stats) -> Option
         )),
         Ok(_) => None,
     }
+}
+
+/// Capacity family: one scenario family per fixed-capacity structure of the state machine
+/// (LayerStack 12, MultiKeyBuffer 20, states 64, action queue 8, one-shot 16, extra waiting 8,
+/// tap-dance list, v1 chord decomposition): drive the count to capacity-1, capacity, +1, +2.
+fn capacity_scenarios() -> Vec<(String, String, Vec<Vec<Ev>>)> {
+    let names: Vec<&str> = "a b c d e f g h i j k l m n o p q r s t u v w".split(' ').collect();
+    let src = names[..18].join(" ");
+    let taps = |ks: &[&str], gap: u32| -> Vec<Ev> {
+        let mut h = vec![];
+        for k in ks {
+            h.push(Ev::P(kc(k)));
+            h.push(Ev::T(1));
+            h.push(Ev::R(kc(k)));
+            h.push(Ev::T(gap));
+        }
+        h
+    };
+    let hold_n_then_probe = |n: usize, probe: &str, reverse: bool| -> Vec<Ev> {
+        let mut h = vec![];
+        for k in &names[..n] {
+            h.push(Ev::P(kc(k)));
+            h.push(Ev::T(1));
+        }
+        h.push(Ev::P(kc(probe)));
+        h.push(Ev::T(1));
+        h.push(Ev::Rep(kc(probe)));
+        h.push(Ev::R(kc(probe)));
+        h.push(Ev::T(1));
+        let mut ks: Vec<&str> = names[..n].to_vec();
+        if reverse {
+            ks.reverse();
+        }
+        for k in ks {
+            h.push(Ev::R(kc(k)));
+            h.push(Ev::T(1));
+        }
+        h.push(Ev::T(60));
+        h
+    };
+    let mut v = vec![];
+    // (1)-(3) held layers: 16 layer keys + probe r
+    let mut hl = vec![];
+    for n in 9..=16 {
+        for rev in [false, true] {
+            hl.push(hold_n_then_probe(n, "r", rev));
+        }
+    }
+    let lwh16 = vec!["(layer-while-held nav)"; 16].join(" ");
+    v.push(("held-layers/explicit".to_string(), format!("(defcfg)\n(defsrc {src})\n(deflayer base {lwh16} x y)\n(deflayer nav {lwh16} z _)\n"), hl.clone()));
+    v.push(("held-layers/transparent".to_string(), format!("(defcfg)\n(defsrc {src})\n(deflayer base {lwh16} x y)\n(deflayer nav {} z _)\n", vec!["_"; 16].join(" ")), hl.clone()));
+    {
+        let row: String = (1..=16).map(|i| format!("(layer-while-held l{i})")).collect::<Vec<_>>().join(" ");
+        let mut cfg = format!("(defcfg delegate-to-first-layer yes)\n(defsrc {src})\n(deflayer base {row} x y)\n");
+        for i in 1..=16 {
+            cfg += &format!("(deflayer l{i} {row} _ (switch ((layer l{i})) z break () w break))\n");
+        }
+        v.push(("held-layers/distinct".to_string(), cfg, hl.clone()));
+    }
+    // (4) wide one-shot chords feeding the repeat buffer (20 slots): n one-shot keys of 8 key codes + a 5-code chord + rpt-any
+    {
+        let cfg = format!("(defcfg)\n(defsrc a b c d e f g)\n(deflayer base (one-shot 50 S-RS-C-RC-M-RM-A-AG-x) (one-shot 50 S-RS-C-RC-M-RM-A-AG-y) (one-shot 50 S-RS-C-RC-M-RM-A-AG-z) C-S-A-M-w S-C-v rpt-any (multi lsft lctl lalt lmet rsft rctl ralt rmet q w e r t y u i o p))\n");
+        let mut hs = vec![];
+        for os in [vec!["a"], vec!["a", "b"], vec!["a", "b", "c"], vec!["a", "b", "c", "a", "b"]] {
+            for key in ["d", "e", "g"] {
+                let mut h = taps(&os, 1);
+                h.extend(taps(&[key], 2));
+                h.extend(taps(&["f"], 2));
+                h.push(Ev::T(80));
+                hs.push(h);
+            }
+        }
+        v.push(("repeat-buffer/one-shot-chords".to_string(), cfg, hs));
+    }
+    // (5) states vector (64): keys whose action presses 18 codes each, 1..5 of them held, then rpt-any
+    {
+        let big = "(multi lsft lctl lalt lmet rsft rctl ralt rmet q w e r t y u i o p)";
+        let cfg = format!("(defcfg)\n(defsrc a b c d e f)\n(deflayer base {big} {big} {big} {big} {big} rpt-any)\n");
+        let mut hs = vec![];
+        for n in 1..=5usize {
+            let mut h = vec![];
+            for k in &names[..n] {
+                h.push(Ev::P(kc(k)));
+                h.push(Ev::T(1));
+            }
+            h.extend(taps(&["f"], 1));
+            for k in &names[..n] {
+                h.push(Ev::R(kc(k)));
+                h.push(Ev::T(1));
+            }
+            h.extend(taps(&["f"], 1));
+            h.push(Ev::T(40));
+            hs.push(h);
+        }
+        v.push(("states/big-multi".to_string(), cfg, hs));
+    }
+    // (6) action queue (8): switch with 6..12 fall-through cases
+    for n in [6usize, 7, 8, 9, 10, 12] {
+        let cases: String = (0..n).map(|i| format!("() {} fallthrough ", ["q", "w", "e", "r", "t", "y", "u", "i", "o", "p", "x", "z"][i])).collect();
+        let cfg = format!("(defcfg)\n(defsrc a b)\n(deflayer base (switch {cases}) b)\n");
+        v.push((format!("action-queue/switch-{n}"), cfg, vec![{
+            let mut h = taps(&["a", "b", "a"], 2);
+            h.push(Ev::P(kc("a")));
+            h.push(Ev::P(kc("b")));
+            h.push(Ev::T(3));
+            h.push(Ev::R(kc("a")));
+            h.push(Ev::R(kc("b")));
+            h.push(Ev::T(40));
+            h
+        }]));
+    }
+    // (7) v1 chords: 8 participants, all singles + the full chord + a 2-chord: all pressed within the timeout,
+    //     released from the middle (decomposition into many parts fills the action queue)
+    {
+        let ks = &names[..8];
+        let mut cfg = format!("(defcfg)\n(defsrc {})\n(deflayer base {})\n(defchords g 10", ks.join(" "), ks.iter().map(|k| format!("(chord g k{k})")).collect::<Vec<_>>().join(" "));
+        for k in ks {
+            cfg += &format!("\n  (k{k}) {k}");
+        }
+        cfg += &format!("\n  (ka kb) x\n  ({}) y)\n", ks.iter().map(|k| format!("k{k}")).collect::<Vec<_>>().join(" "));
+        let mut hs = vec![];
+        for n in 3..=8usize {
+            for rel in [0usize, n / 2, n - 1] {
+                let mut h = vec![];
+                for k in &ks[..n] {
+                    h.push(Ev::P(kc(k)));
+                }
+                h.push(Ev::T(2));
+                h.push(Ev::R(kc(ks[rel])));
+                h.push(Ev::T(20));
+                for (i, k) in ks[..n].iter().enumerate() {
+                    if i != rel {
+                        h.push(Ev::R(kc(k)));
+                    }
+                }
+                h.push(Ev::T(40));
+                hs.push(h);
+            }
+        }
+        v.push(("action-queue/v1-chord-decomposition".to_string(), cfg, hs));
+    }
+    // (8) tap-dance with a 20-item list, 1..25 taps; eager and lazy
+    for eager in [false, true] {
+        let items: String = (0..20).map(|i| ["q", "w", "e", "r", "t"][i % 5]).collect::<Vec<_>>().join(" ");
+        let cfg = format!("(defcfg)\n(defsrc a b)\n(deflayer base (tap-dance{} 5 ({items})) b)\n", if eager { "-eager" } else { "" });
+        let mut hs = vec![];
+        for n in [1usize, 19, 20, 21, 22, 25] {
+            let mut h = taps(&vec!["a"; n], 1);
+            h.push(Ev::T(30));
+            hs.push(h);
+        }
+        v.push((format!("tap-dance/20-items/{}", if eager { "eager" } else { "lazy" }), cfg, hs));
+    }
+    // (9) 7..10 tap-hold keys pending at once (extra waiting 8), with and without concurrent-tap-hold
+    for conc in ["no", "yes"] {
+        let th10 = (0..10).map(|_| "(tap-hold 20 20 x lsft)").collect::<Vec<_>>().join(" ");
+        let cfg = format!("(defcfg concurrent-tap-hold {conc})\n(defsrc {})\n(deflayer base {th10} z)\n", names[..11].join(" "));
+        let mut hs = vec![];
+        for n in 7..=10usize {
+            let mut h = vec![];
+            for k in &names[..n] {
+                h.push(Ev::P(kc(k)));
+                h.push(Ev::T(1));
+            }
+            h.extend(taps(&["k"], 1));
+            h.push(Ev::T(30));
+            for k in &names[..n] {
+                h.push(Ev::R(kc(k)));
+            }
+            h.push(Ev::T(40));
+            hs.push(h);
+        }
+        v.push((format!("extra-waiting/tap-hold-x10/conc-{conc}"), cfg, hs));
+    }
+    v
 }
 
 fn floods() -> Vec<Vec<Ev>> {
@@ -325,6 +503,22 @@ fn run_job(tier: Tier, idx: usize, st: &mut Stats) {
             st.configs_accepted += 1;
             st.outcome(&format!("accepted/{}", j.tag.split('/').next().unwrap_or("")));
         }
+    }
+    if j.kind == 2 {
+        let tag = j.tag.strip_prefix("capacity/").unwrap_or("");
+        for (t, _, hs) in capacity_scenarios() {
+            if t != tag {
+                continue;
+            }
+            for h in hs {
+                if let Err((i, m)) = exec_counting(&j.cfg, &h, 0, st) {
+                    st.violation(mk_violation("C02", panic_signature(&m), format!("{}: {} at step {} of [{}]", j.tag, m, i, crate::sim::hist_to_string(&h)), "history-nosettle", &j.cfg, &h, json!({"failure": m})));
+                    break;
+                }
+            }
+        }
+        st.sample(json!({"tag": j.tag, "capacity": true}));
+        return;
     }
     if j.kind == 1 {
         for h in floods() {
